@@ -10,7 +10,8 @@ From Coq Require Import ZArith Znumtheory List Bool Lia.
 From GmsmVerif Require Import Lib.Outcome EC.ECAffine EC.SM2Curve EC.ECAffineProofs EC.JacFormulas
   EC.P256Model EC.P256Proofs EC.P256Instance EC.WnafProofs EC.BaseMultProofs EC.TableCheck EC.C03Final
   EC.LimbModel EC.LimbProofs EC.LimbReduceDefs EC.LimbUnpack EC.LimbStepEven EC.LimbStepOdd EC.LimbStepLast
-  EC.LimbReduceFinal EC.LimbOld EC.LimbRefine Gen.P256Limbs
+  EC.LimbReduceFinal EC.LimbOld EC.LimbRefine EC.LimbPoint EC.LimbSelect EC.LimbScalar EC.LimbScalarMult EC.LimbAPI
+  Gen.P256Limbs
   Gen.SM2Params Gen.P256Tables.
 Import ListNotations.
 Open Scope Z_scope.
@@ -386,6 +387,97 @@ Proof.
   split; [apply fe_Mul; assumption|]. apply fe_Square; assumption.
 Qed.
 Print Assumptions C03_limb_refines_Fp_model.
+
+(* ---- the point functions, the selections and the scalar multiplications on limbs ---------------------------------------
+   EC/LimbPoint.v: sm2P256PointDouble / PointAddMixed / PointAdd / PointSub as programs over the proved limb operations,
+   with PointAdd's decisions taken on sm2P256ToBig values; looseJ = all three coordinates loose, feJ = fe coordinatewise. *)
+Theorem C03_limb_point_functions :
+  (forall J, looseJ J -> looseJ (PointDouble_limbs J) /\ feJ (PointDouble_limbs J) = PointDouble_model (feJ J)) /\
+  (forall J x2 y2, looseJ J -> looseL x2 -> looseL y2 ->
+     looseJ (PointAddMixed_limbs J x2 y2) /\
+     feJ (PointAddMixed_limbs J x2 y2) = PointAddMixed_model (feJ J) (fe x2) (fe y2)) /\
+  (forall J1 J2, looseJ J1 -> looseJ J2 ->
+     looseJ (PointAdd_limbs J1 J2) /\ feJ (PointAdd_limbs J1 J2) = PointAdd_model (feJ J1) (feJ J2)) /\
+  (forall J1 J2, looseJ J1 -> looseJ J2 ->
+     looseJ (fst (PointSub_limbs J1 J2)) /\ looseL (snd (PointSub_limbs J1 J2)) /\
+     feJ (fst (PointSub_limbs J1 J2)) = fst (PointSub_model (feJ J1) (feJ J2)) /\
+     fe (snd (PointSub_limbs J1 J2)) = snd (PointSub_model (feJ J1) (feJ J2))).
+Proof.
+  exact (conj PointDouble_limbs_correct (conj PointAddMixed_limbs_correct
+        (conj PointAdd_limbs_correct PointSub_limbs_correct))).
+Qed.
+Print Assumptions C03_limb_point_functions.
+
+(* EC/LimbSelect.v: the constant-time selections on uint32 masks (hand-modelled with explicit wrap-around):
+   the mask of (i, index) is all-ones exactly for i = index (sweep 15 x 16), nonZeroToAllOnes, CopyConditional is
+   if-then-else on words < 2^32, the OR-accumulation over i = 1..15 returns exactly the indexed entry (0 for index 0),
+   SelectJacobianPoint returns table[index], and every SelectAffinePoint of the generated table is what the F_p-level
+   model selects (sweep over both halves x 16 indices). *)
+Theorem C03_limb_selections :
+  (forall i index, In i [1;2;3;4;5;6;7;8;9;10;11;12;13;14;15]%N -> In index [0;1;2;3;4;5;6;7;8;9;10;11;12;13;14;15]%N ->
+     select_mask i index = if (i =? index)%N then ones32 else 0%N) /\
+  (forall out inp, words32 out -> words32 inp -> length out = length inp ->
+     CopyConditional_limbs out inp 0%N = out /\ CopyConditional_limbs out inp ones32 = inp) /\
+  (forall f index, (index <= 15)%N -> (forall i, (f i < W32)%N) ->
+     select_word f index = if (index =? 0)%N then 0%N else f index) /\
+  (forall table index, (index <= 15)%N -> (forall i, looseJ (nth i table zeroJ)) ->
+     SelectJacobianPoint_limbs table index = if (index =? 0)%N then zeroJ else nth (N.to_nat index) table zeroJ) /\
+  (forall off idx, (off = 0 \/ off = 270)%nat -> (idx <= 15)%N ->
+     let '(px, py) := SelectAffinePoint_limbs (skipn off precomputedN) idx in
+     looseL px /\ looseL py /\
+     (fe px, fe py) = sm2P256SelectAffinePoint gen_curve gen_RInverse (skipn off gen_sm2P256Precomputed) (Z.of_N idx)).
+Proof.
+  split; [|exact (conj CopyConditional_spec (conj select_word_spec (conj SelectJacobianPoint_limbs_spec select_affine_ok)))].
+  intros i index Hi Hx. pose proof select_mask_spec as H. rewrite forallb_forall in H.
+  specialize (H i Hi). rewrite forallb_forall in H. specialize (H index Hx). apply N.eqb_eq in H. exact H.
+Qed.
+Print Assumptions C03_limb_selections.
+
+(* EC/LimbScalar.v, LimbScalarMult.v, LimbAPI.v: every public method built on the limb pipeline (FromBig, limb-level
+   point functions, mask selections, ToBig) equals the F_p-level model function - for ALL inputs, no premise *)
+Theorem C03_limb_pipeline_is_model :
+  (forall X Y, IsOnCurve_limbs X Y = IsOnCurve_model X Y) /\
+  (forall x1 y1 x2 y2, Add_limbs x1 y1 x2 y2 = Add_model x1 y1 x2 y2) /\
+  (forall x1 y1, Double_limbs x1 y1 = Double_model x1 y1) /\
+  (forall x1 y1 k, ScalarMult_limbs x1 y1 k = ScalarMult_model x1 y1 k) /\
+  (forall k, ScalarBaseMult_limbs k = ScalarBaseMult_model k) /\
+  (forall rnd, GenerateKey_limbs rnd = GenerateKey_model rnd).
+Proof.
+  exact (conj IsOnCurve_limbs_is_model (conj Add_limbs_is_model (conj Double_limbs_is_model
+        (conj ScalarMult_limbs_is_model (conj ScalarBaseMult_limbs_is_model GenerateKey_limbs_is_model))))).
+Qed.
+Print Assumptions C03_limb_pipeline_is_model.
+
+(* ... hence the property theorems hold for the limb-level code: items 3, 4, 5, 6, 7 on the limb pipeline *)
+Theorem C03_limb_pipeline_properties :
+  (prime sm2_p ->
+     (forall Q1 Q2 : point, sm2_valid Q1 = true -> sm2_valid Q2 = true ->
+        Add_limbs (fst (encode_point Q1)) (snd (encode_point Q1)) (fst (encode_point Q2)) (snd (encode_point Q2))
+        = encode_point (sm2_add Q1 Q2)) /\
+     (forall Q : point, sm2_valid Q = true ->
+        Double_limbs (fst (encode_point Q)) (snd (encode_point Q)) = encode_point (sm2_double Q))) /\
+  (forall x y, IsOnCurve_limbs x y = true <-> (y * y) mod sm2_p = (x * x * x + sm2_a * x + sm2_b) mod sm2_p) /\
+  (SM2Facts ->
+     (forall k : list N, ScalarBaseMult_limbs k = Ok (encode_point (sm2_base_mul (os2ip k mod sm2_n)))) /\
+     (forall x y (k : list N), sm2_valid (Some (x, y)) = true -> small_multiples_finite (Some (x, y)) ->
+        ScalarMult_limbs x y k = Ok (encode_point (sm2_mul (os2ip k mod sm2_n) (Some (x, y))))) /\
+     (forall rnd : list N,
+        let d := os2ip (firstn 40 rnd) mod (sm2_n - 2) + 1 in
+        1 <= d <= sm2_n - 2 /\
+        GenerateKey_limbs rnd =
+          if (length rnd <? 40)%nat then Err 1 else Ok (d, encode_point (sm2_base_mul d), 40%nat))).
+Proof.
+  split; [|split].
+  - intros Hp. split.
+    + intros Q1 Q2 H1 H2. rewrite Add_limbs_is_model. exact (Add_is_group_add Hp Q1 Q2 H1 H2).
+    + intros Q H. rewrite Double_limbs_is_model. exact (Double_is_group_double Hp Q H).
+  - intros x y. rewrite IsOnCurve_limbs_is_model. apply C03_IsOnCurve_iff.
+  - intros HF. split; [|split].
+    + intros k. rewrite ScalarBaseMult_limbs_is_model. exact (ScalarBaseMult_is_smul HF k).
+    + intros x y k Hv Hs. rewrite ScalarMult_limbs_is_model. exact (ScalarMult_is_smul HF x y k Hv Hs).
+    + intros rnd. rewrite GenerateKey_limbs_is_model. exact (GenerateKey_is_spec HF rnd).
+Qed.
+Print Assumptions C03_limb_pipeline_properties.
 
 Example C03_limb_examples :
   sm2P256Add_limbs [1; 0; 0; 0; 0; 0; 0; 0; 536870911]%N [536870911; 268435455; 0; 0; 0; 0; 0; 0; 536870911]%N
